@@ -12,6 +12,7 @@ pub mod c14;
 pub mod c15;
 pub mod c16;
 pub mod c17;
+pub mod c18;
 pub mod c20;
 
 pub fn run(ctx: &mut Ctx, suite: &str) {
@@ -35,6 +36,7 @@ pub fn run(ctx: &mut Ctx, suite: &str) {
         "c15" => c15::run(ctx),
         "c16" => c16::run(ctx),
         "c17" => c17::run(ctx),
+        "c18" => c18::run(ctx),
         "c20" => c20::run(ctx),
         _ => {
             eprintln!("unknown suite {suite}");
@@ -61,6 +63,7 @@ pub fn replay(ctx: &mut Ctx, tag: &str, args: &[&str]) {
         "c16n" => c16::case_new(ctx, args[0]),
         "c16a" => c16::case_add(ctx, args[0], args[1]),
         "c17" => c17::case(ctx, args[0], args[1]),
+        "c18" => c18::case(ctx, args[0]),
         "c20e" => c20::case_error(ctx, args[0]),
         "c20s" => c20::case_status(ctx, args[0], args[1]),
         _ => eprintln!("unknown case tag {tag}"),
